@@ -372,6 +372,40 @@ func c12All(c *Check, P string) {
 	if len(waits) == 0 {
 		c.Floor(P+".O4", "blocking wait over exactly {ctx.Done(), timer(back-off)} in the retry loop (inline select or helper)", 0, 1)
 	}
+	// the MaxElapsedTime context stays alive while Retry waits: its cancel function is only ever deferred (called in
+	// place before the loop it ends the waiting at once, and Retry gives up after the first failure)
+	for _, cl := range CallsTo(I, nWithTimeout) {
+		call, isCall := cl.(*ssa.Call)
+		if !isCall {
+			continue
+		}
+		for _, ref := range *call.Referrers() {
+			e, isE := ref.(*ssa.Extract)
+			if !isE || e.Index != 1 {
+				continue
+			}
+			isCancel := func(v ssa.Value) bool { return AnyOrigin(v, func(o ssa.Value) bool { return o == ssa.Value(e) }) }
+			for _, f := range WithStarted(I) {
+				for _, use := range CallsIn(f) {
+					if use.Common().IsInvoke() || CalleeFn(use.Common()) != nil || !isCancel(use.Common().Value) {
+						continue
+					}
+					_, isDefer := use.(*ssa.Defer)
+					okLate := isDefer
+					if !okLate && f == I {
+						// a call in place is fine once no wait can follow
+						okLate = true
+						for _, w := range waits {
+							if ReachAfter(use, nil)[w.site] {
+								okLate = false
+							}
+						}
+					}
+					c.Report(okLate, P+".O4", "TIMEOUT-CONTEXT-LIVES", f, use.Pos(), "cancel of the MaxElapsedTime context", "the context that bounds the waiting is cancelled only when Retry is done (deferred, or after the last wait) — not before the waits it is meant to bound")
+				}
+			}
+		}
+	}
 	// a failed attempt is given up only because the retries are used up or the context ended: no property of the
 	// error (its kind, its text) and no other condition ends the retrying early
 	if len(giveUp) > 0 {
